@@ -27,10 +27,15 @@ var importMap = map[string]string{
 	"sync/atomic":                mcPath + "/matomic",
 	"context":                    mcPath + "/mctx",
 	"golang.org/x/sync/errgroup": mcPath + "/merrgroup",
-	"os":                         mcPath + "/mos",
 	"time":                       mcPath + "/mtime",
 }
-var importName = map[string]string{"sync": "sync", "sync/atomic": "atomic", "context": "context", "golang.org/x/sync/errgroup": "errgroup", "os": "os", "time": "time"}
+
+// package os is NOT replaced wholesale (a tree may use any part of it): only the calls that touch the file system
+// are redirected to the mos seam, everything else stays the real package
+var mosFuncs = map[string]bool{"Stat": true, "Lstat": true, "MkdirAll": true, "Mkdir": true, "Create": true, "OpenFile": true,
+	"WriteFile": true, "Remove": true, "RemoveAll": true, "ReadDir": true, "DirFS": true, "Open": true, "ReadFile": true,
+	"Rename": true, "Chmod": true, "Symlink": true, "MkdirTemp": true}
+var importName = map[string]string{"sync": "sync", "sync/atomic": "atomic", "context": "context", "golang.org/x/sync/errgroup": "errgroup", "time": "time"}
 
 var baseDir string
 var workerVars []string
@@ -342,6 +347,7 @@ func shortFile(p string) string {
 
 func transformFile(in *instr, fset *token.FileSet, f *ast.File, mem bool) {
 	used := false
+	usedMos := false
 	for _, im := range f.Imports {
 		p, _ := strconv.Unquote(im.Path.Value)
 		if np, ok := importMap[p]; ok {
@@ -375,6 +381,13 @@ func transformFile(in *instr, fset *token.FileSet, f *ast.File, mem bool) {
 			}
 		}
 		switch n := c.Node().(type) {
+		case *ast.SelectorExpr:
+			if id, ok := n.X.(*ast.Ident); ok && mosFuncs[n.Sel.Name] {
+				if pn, ok := in.info.Uses[id].(*types.PkgName); ok && pn.Imported().Path() == "os" {
+					n.X = ast.NewIdent("verifmos")
+					usedMos = true
+				}
+			}
 		case *ast.ChanType:
 			used = true
 			c.Replace(chanType(n))
@@ -437,6 +450,12 @@ func transformFile(in *instr, fset *token.FileSet, f *ast.File, mem bool) {
 	astutil.Apply(f, nil, post)
 	if used {
 		astutil.AddNamedImport(fset, f, "mc", mcPath)
+	}
+	if usedMos {
+		astutil.AddNamedImport(fset, f, "verifmos", mcPath+"/mos")
+		if !astutil.UsesImport(f, "os") {
+			astutil.DeleteImport(fset, f, "os")
+		}
 	}
 }
 
